@@ -843,7 +843,7 @@ decintdiv decint_divide(const edecimal& _a, const edecimal& _b) {
 	if (result_negative) {
 		divresult.quot.setneg();
 	}
-	if (_a < 0) {
+	if (_a < 0 && !accumulator.iszero()) {
 		divresult.rem = -accumulator;
 	}
 	else {
